@@ -47,7 +47,7 @@ WhyC02 ==
 WhyC05 ==
   IF Ev.missing THEN "no generated type carries the definition"
   ELSE IF ~Valid(AllDefs, Schema, Ev.doc) \/ HasNull(Ev.doc) THEN "ok"      \* C05 quantifies over valid documents
-  ELSE IF Ev.decodeErr THEN "ok"                                          \* a C02 matter
+  ELSE IF Ev.decodeErr THEN "a valid document cannot be decoded into the generated type"
   ELSE IF ~Ev.hasOut THEN "a valid document cannot be re-encoded and re-decoded"
   ELSE IF HasNumX(Ev.out1) THEN "a number changed in the round trip"
   ELSE IF ~RoundTripAllowed(AllDefs, Schema, Ev.doc, Ev.out1) THEN "a declared value is lost, changed or added by decode/encode"
